@@ -383,7 +383,7 @@ func (s *Sorts) preamble() []string {
 		"(declare-const ZERO_TIME_NS Int)",
 		"(assert (= ZERO_TIME_NS (- 62135596800000000000)))",
 		"(declare-fun strlen (Str) Int)",
-		"(declare-fun concat (Str Str) Str)",
+		"(declare-fun strcat (Str Str) Str)",
 		"(declare-fun errmsg (Int) Str)",
 		"(declare-fun str2i (Str) Int)",
 		"(declare-fun i2str (Int) Str)",
